@@ -2260,7 +2260,14 @@ def _handle_assignment_ast(
         for idx, name in enumerate(left_names):
             _bind_helper_global(ctx, name, inferred_types[idx])
         for idx, name in enumerate(left_names):
-            var_types[name] = inferred_types[idx]
+            # as for plain assignments: a declared scalar keeps its declared type
+            if (
+                name not in declared
+                or var_types.get(name) is None
+                or _is_list_type(inferred_types[idx])
+                or _is_open_parameter(ctx, name, var_types.get(name), inferred_types[idx])
+            ):
+                var_types[name] = inferred_types[idx]
 
         # Decide if we can emit simple declarations (all new + global scope)
         all_new = all(name not in declared for name in left_names)
